@@ -282,31 +282,36 @@ func checkRequests(r *core.Run, b *genlab.Batch, pr *genlab.Prog, report func(wh
 				bad(fmt.Sprintf("root module %q: no Go file was generated in directory %q", m.ThriftFilePath, m.Directory), "rootmod-nodir")
 			}
 		}
-		// which files does this run generate? Root modules are the files the
-		// CLI was called with (one); a recursive run also generates includes.
+		// which files does this run generate? The statement speaks about root
+		// *services* only. For root modules the two documented readings ("the
+		// files the CLI was called with", generate.go; "modules for which code
+		// should be generated", api.thrift) are both accepted: the file given on
+		// the command line must be a root module, and every root module must be
+		// a file this run generates.
 		generated := map[string]bool{}
-		if len(rootMods) != 1 {
-			bad(fmt.Sprintf("the run names %d root modules, the CLI is called with one file", len(rootMods)), "rootmod-count")
-		}
 		if pr.CLI.PerModule {
+			// the run's own file: the one root module that is a file of the program
 			for p := range rootMods {
-				generated[p] = true
-				known := false
 				for _, f := range pr.P.Files {
 					if filepath.Join(pr.SrcDir, f.Path) == p {
-						known = true
+						generated[p] = true
 					}
 				}
-				if !known {
-					bad(fmt.Sprintf("root module %q is not a file of the program", p), "rootmod-extra")
-				}
+			}
+			if len(generated) != 1 {
+				bad(fmt.Sprintf("a --no-recurse run names %d root modules that are files of the program, expected the one it was called with", len(generated)), "rootmod-count")
 			}
 		} else {
 			for _, f := range pr.P.Files {
 				generated[filepath.Join(pr.SrcDir, f.Path)] = true
 			}
 			if arg := filepath.Join(pr.SrcDir, pr.P.Files[0].Path); !rootMods[arg] {
-				bad(fmt.Sprintf("the CLI was called with %q, which is not the root module", arg), "rootmod-missing")
+				bad(fmt.Sprintf("the CLI was called with %q, which is not a root module", arg), "rootmod-missing")
+			}
+		}
+		for p := range rootMods {
+			if !generated[p] {
+				bad(fmt.Sprintf("root module %q is not a file this run generates", p), "rootmod-extra")
 			}
 		}
 		// services
